@@ -8,8 +8,10 @@
 #![feature(step_trait)]
 #![allow(clippy::too_many_arguments, clippy::type_complexity)]
 
+mod alloc_track;
 mod common;
 mod pure;
+mod sim;
 
 use std::time::Duration;
 
@@ -25,7 +27,13 @@ struct Check {
 }
 
 fn checks() -> Vec<Check> {
-    vec![pure::c08::check(), pure::c04::check()]
+    vec![
+        pure::c04::check(),
+        pure::c08::check(),
+        pure::c09::check(),
+        pure::c18::check(),
+        sim::c01::check(),
+    ]
 }
 
 fn main() {
